@@ -12,6 +12,7 @@
 -/
 import TcVerif.Lemmas.History
 import TcVerif.Props.C05
+import TcVerif.Props.C18
 namespace TcVerif
 
 /-- **C02 (refinement).** Every decision (and the reported remaining tokens) for key `k`, at every
@@ -31,6 +32,27 @@ theorem C02_always_answered (ei : Int → Int → Int) (k : Key) (rs : List Req)
     ∀ p ∈ (runTagged AnyStore.ops ei st rs).filter (fun p => p.1.key = k), p.2.isOk = true ∧ p.2.limit = B := by
   rw [C05_projection_to_cell ei k rs t0 st hst hm]
   exact (cell_run_bucket _ t0 none none hfix (rel_fresh E B t0) 0 0).2.1
+
+/-- **C02 for `rate_limit` itself**: limits `(B, c, p)` in the property's domain, the interval as the
+    code computes it (= `p·10⁹ / c` by C18): every decision and every `remaining` for key `k` equal
+    those of the ideal bucket of capacity `B` refilled by one token per `p·10⁹ / c` ns. -/
+theorem C02_refines_bucket_rate_limit (k : Key) (rs : List Req) (t0 : Int) (B c p : Int)
+    (st : AnyStore) (hst : st.data = []) (hm : MonotoneFrom t0 rs)
+    (hp1 : 1 ≤ p) (hp2 : p ≤ 9000000) (hc1 : 1 ≤ c) (hc2 : c ≤ p * 1000000000) (hB : 1 ≤ B)
+    (hBE : B * (p * 1000000000 / c) ≤ TWO60)
+    (hreqs : ∀ r ∈ rs, r.key = k → r.burst = B ∧ r.count = c ∧ r.period = p ∧ 0 ≤ r.qty ∧ 0 ≤ r.now ∧ r.now ≤ T_MAX) :
+    ((runTagged AnyStore.ops emissionInterval st rs).filter (fun x => x.1.key = k)).map (fun x => (x.2.allowed, x.2.remaining))
+      = Bucket.runFull B (p * 1000000000 / c) none ((rs.filter (fun r => r.key = k)).map reqTQ) := by
+  have hE : emissionInterval c p = p * 1000000000 / c := C18_floor c p hp1 hp2 hc1 hc2
+  have hE1 : 1 ≤ p * 1000000000 / c := by
+    have := (Int.le_ediv_iff_mul_le (by omega : 0 < c)).mpr (by omega : 1 * c ≤ p * 1000000000)
+    omega
+  have hD : DomD (p * 1000000000 / c) B := ⟨hE1, hB, hBE⟩
+  have hfix := fixedD_of_forall emissionInterval (p * 1000000000 / c) B k rs t0 hD hm (by
+    intro r hr hk
+    obtain ⟨h1, h2, h3, h4, h5, h6⟩ := hreqs r hr hk
+    exact ⟨h1, by rw [h2, h3]; exact hE, ⟨h4, by omega, by omega, by omega⟩, h5, h6⟩)
+  exact C02_refines_bucket emissionInterval k rs t0 _ B st hst hm hfix
 
 /-! #### consequences read off the specification -/
 
